@@ -27,16 +27,16 @@ def select(pid, m):
     return {"functions": fns, "modules": mods, "clauses": clauses, "undecided_functions": und}
 
 
-def cex_search(pid, seed):
+def cex_search(pid, seed, sequences=8000, budget=45):
     """-> text of a failing history found on the real code, or None"""
     if os.environ.get("PQ_NO_CEX"):
         return None
     repo = os.environ.get("PQ_REPO", "/repo")
     work = os.path.join(VERIF, "gen", "_cex")
-    env = dict(os.environ, PQ_CEX_WORK=work, PQ_CEX_TARGET=os.path.join(work, "target"), PQ_CEX_TIMEOUT="45")
+    env = dict(os.environ, PQ_CEX_WORK=work, PQ_CEX_TARGET=os.path.join(work, "target"), PQ_CEX_TIMEOUT=str(budget))
     try:
-        r = subprocess.run([os.path.join(VERIF, "harness/cex/run.sh"), repo, "search", pid, str(seed + 7), "8000", "120"],
-                           capture_output=True, text=True, env=env, timeout=400)
+        r = subprocess.run([os.path.join(VERIF, "harness/cex/run.sh"), repo, "search", pid, str(seed + 7), str(sequences), "120"],
+                           capture_output=True, text=True, env=env, timeout=400 + budget)
     except Exception:
         return None
     out = r.stdout
@@ -209,6 +209,7 @@ def report(pid, tier, seed, m, sel, res, findings, cmd, t0, outdir):
         "thorough_rewrite_roundtrip": sel.get("roundtrip"),
         "thorough_detection_selftest": sel.get("selftest"),
         "thorough_indexmap_stub_audit": sel.get("stub_audit"),
+        "thorough_history_search_on_real_code": sel.get("history_search"),
         "generated_cost_obligations": [{"id": o["id"], "declared": o["declared"], "derived": o["derived"]} for o in sel.get("extra_obligations", [])][:80],
         "other_properties_failing_in_shared_functions": sorted(set(t for f in others for t in f["tags"])),
     }
@@ -235,7 +236,7 @@ def report(pid, tier, seed, m, sel, res, findings, cmd, t0, outdir):
                 fh.write("    verifier output:\n" + "".join("      " + l + "\n" for l in f["rendered"].split("\n")))
             # Verus yields no model: search for a concrete failing history on the real code (model-based random
             # histories, harness/cex); only reached after a failed obligation, never on a passing tree
-            cex = cex_search(pid, seed)
+            cex = next((f["cex"] for f in new_viol if f.get("cex")), None) or cex_search(pid, seed)
             if cex:
                 fh.write("\nfailing input found by harness/cex on the real code (debug build of the crate at %s):\n%s\n" % (os.environ.get("PQ_REPO", "/repo"), cex))
             else:
